@@ -113,6 +113,14 @@ class C08(Prop):
                      {'op': ['insert', 'ports', rec]},
                      {'op': ['insert', 'ports', rec]},
                      {'op': ['remove', 'ports', {}], 'crash': [0.8, 0.0]}]},
+            # event-loop atomicity: a multi-record update gathered with another operation on a large collection
+            {'kind': 'conc', 'file': 'data.json', 'ub': True, 'pretty': False, 'n': 250, 'mod': 10,
+             'batch': [['update', 'ports', {'value': 1, 'pending': False}, {'type': 'boolean'}],
+                       ['insert', 'device', {'id': 'session', 'token': 'abcdef'}]]},
+            {'kind': 'conc', 'file': 'store', 'ub': False, 'pretty': None, 'n': 130, 'mod': 7,
+             'batch': [['remove', 'ports', {'type': 'boolean'}],
+                       ['update', 'ports', {'display_name': 'T'}, {'id': 'p010'}],
+                       ['update', 'ports', {'value': 2}, {'value': 0}]]},
             {'kind': 'layout', 'file': 'data.json', 'ub': True, 'pretty': False, 'F': ['-'], 'B': ['doc', 1]},
             {'kind': 'layout', 'file': 'data.json', 'ub': True, 'pretty': False, 'F': ['empty'], 'B': ['doc', 1]},
             {'kind': 'layout', 'file': 'data.json', 'ub': True, 'pretty': False, 'F': ['part', 1, 0.5], 'B': ['doc', 2]},
@@ -160,6 +168,33 @@ class C08(Prop):
                 return ['doc', rng.randrange(1, 4)]
             return {'kind': 'layout', 'file': rng.choice(FILES), 'ub': rng.random() < 0.7,
                     'pretty': rng.choice([True, False, None]), 'F': desc(), 'B': desc()}
+        if rng.random() < 0.07:
+            n = rng.choice([120, 150, 199, 200, 201, 250, 300])
+            mod = rng.choice([2, 3, 7, 10])
+            filt = rng.choice([{'type': 'boolean'}, {'type': 'boolean'}, {}, {'value': 0}, {'type': 'number'}])
+            if rng.random() < 0.7:
+                big = ['update', 'ports', rng.choice([{'value': 1}, {'value': 1, 'pending': False}, {'type': 'x'}]), filt]
+            else:
+                big = ['remove', 'ports', filt]
+
+            def other():
+                r = rng.random()
+                pid = f'p{rng.randrange(n):03d}'
+                if r < 0.3:
+                    return ['insert', 'device', {'id': rng.choice(['session', 's2']), 'token': 'abc'}]
+                if r < 0.5:
+                    return ['update', 'ports', {'display_name': 'T'}, {'id': pid}]
+                if r < 0.65:
+                    return ['remove', 'ports', {'id': pid}]
+                if r < 0.8:
+                    return ['insert', 'ports', {'type': 'boolean', 'value': 0}]
+                if r < 0.9:
+                    return ['replace', 'ports', pid, {'type': 'number', 'value': 5}]
+                return ['update', 'ports', {'value': 2}, rng.choice([{'value': 0}, {'type': 'number'}])]
+            batch = [other() for _ in range(rng.choice([1, 1, 2]))]
+            batch.insert(0 if rng.random() < 0.7 else rng.randrange(len(batch) + 1), big)
+            return {'kind': 'conc', 'file': rng.choice(FILES), 'ub': rng.random() < 0.7,
+                    'pretty': rng.choice([True, False, False, None]), 'n': n, 'mod': mod, 'batch': batch}
         nops = rng.randint(1, 8 if tier == 'quick' else 14)
         ids = {c: [] for c in COLLS}
         ops = []
@@ -195,6 +230,15 @@ class C08(Prop):
                 'pretty': rng.choice([True, False, None]), 'ops': ops, 'tier': tier}
 
     def shrink_candidates(self, case):
+        if case['kind'] == 'conc':
+            b = case['batch']
+            for i in range(len(b)):
+                if len(b) > 1:
+                    yield dict(case, batch=b[:i] + b[i + 1:])
+            for n in (100, 120, 150):
+                if n < case['n']:
+                    yield dict(case, n=n)
+            return
         if case['kind'] != 'ops':
             return
         ops = case['ops']
@@ -364,6 +408,8 @@ class C08(Prop):
             if case['kind'] == 'layout':
                 return self._run_layout(case, driver, d)
             try:
+                if case['kind'] == 'conc':
+                    return self._run_conc(case, driver, d)
                 return self._run_ops(case, driver, d)
             except Abort as a:
                 return a.failure, {'tags': ['aborted'], 'key': None, 'observed': a.failure.detail}
@@ -661,6 +707,236 @@ class C08(Prop):
             key = json.dumps([ub, case['pretty'], case['file'], outcomes, sorted(t for t in tags if t.startswith('steps:'))])
         return state['fail'], {'tags': sorted(tags), 'key': key,
                                'observed': {'outcomes': outcomes, 'crash_points': npoints}}
+
+    # ------------------------------------------------------------------ concurrent batches (event-loop atomicity)
+    async def _aop(self, drv, op):
+        kind = op[0]
+        if kind == 'insert':
+            return await drv.insert(op[1], dict(op[2]))
+        if kind == 'update':
+            return await drv.update(op[1], dict(op[2]), dict(op[3]))
+        if kind == 'replace':
+            return await drv.replace(op[1], op[2], dict(op[3]))
+        if kind == 'remove':
+            return await drv.remove(op[1], dict(op[2]))
+        raise ValueError(kind)
+
+    async def _batch(self, drv, ops, done, shim):
+        """all operations started together, in list order, as tasks of the one event loop"""
+        async def one(i, op):
+            try:
+                await self._aop(drv, op)
+            except Exception:
+                pass
+            if not shim.dead:                   # (the loop keeps running the other tasks after the simulated death)
+                done.append(i)                  # acknowledged to its caller
+        tasks = [self.loop.create_task(one(i, op)) for i, op in enumerate(ops)]
+        try:
+            await asyncio.gather(*tasks)
+        finally:
+            for t in tasks:
+                t.cancel()
+            await asyncio.gather(*tasks, return_exceptions=True)
+
+    def _dump_text(self, case, text):
+        t = tempfile.mkdtemp(prefix='c08t-', dir=self.scratch)
+        try:
+            p = os.path.join(t, case['file'])
+            with open(p, 'wb') as f:
+                f.write(text)
+            return self._dump(self._mk(case, p))
+        finally:
+            shutil.rmtree(t, ignore_errors=True)
+
+    def _run_conc(self, case, driver, d):
+        import itertools
+        import random
+        fpath = os.path.join(d, case['file'])
+        fname = case['file']
+        bname = os.path.basename(backup_path(fpath))
+        ub = case['ub']
+        batch = case['batch']
+        tags = {'conc', f'conc-batch={len(batch)}', 'conc-big=' + next(
+            (op[0] for op in batch if op[0] in ('update', 'remove') and 'id' not in op[-1]), '?')}
+        records = [{'id': f'p{i:03d}', 'type': 'number' if i % case['mod'] == 0 else 'boolean', 'value': 0}
+                   for i in range(case['n'])]
+        state = {'fail': None, 'classes': set()}
+
+        def fail(kind, detail, cls=None, **kw):
+            if state['fail'] is None or (kind == 'property' and state['fail'].kind != 'property'):
+                state['fail'] = Failure(kind, detail, **kw)
+                state['classes'] = {cls}
+            elif kind == 'property' and cls is not None and cls not in state['classes']:
+                state['classes'].add(cls)
+                state['fail'].detail += ' || ALSO ' + detail
+
+        # ---- the store before the batch, on disk (real saves) and in memory (for the whole-operation states)
+        setup = self._mk(case, fpath)
+        base = self.mod.JSONDriver(None, pretty_format=case['pretty'], use_backup=ub)
+        for drv in (setup, base):
+            for r in records:
+                self._await(drv.insert('ports', dict(r)))
+            self._await(drv.insert('device', {'id': 'main', 'name': 'hub'}))
+        s_pre = self._snapshot(d)
+        pre_dump = self._dump(setup)
+        if self._dump(self._mk(case, fpath)) != pre_dump or self._dump(base) != pre_dump:
+            fail('property', 'set-up: a restarted driver does not show the inserted records')
+            raise Abort(state['fail'])
+
+        # ---- whole-operation states: every order, every prefix, operations applied one at a time
+        whole = {}          # dump -> list of prefixes (tuples of batch indices) producing it
+        for perm in itertools.permutations(range(len(batch))):
+            drv = copy.deepcopy(base)
+            whole.setdefault(self._dump(drv), []).append(())
+            for n, i in enumerate(perm):
+                try:
+                    self._await(self._aop(drv, batch[i]))
+                except Exception:
+                    pass
+                whole.setdefault(self._dump(drv), []).append(perm[:n + 1])
+
+        def clone():
+            return copy.deepcopy(setup)
+        try:
+            clone()
+        except Exception:
+            tags.add('driver-not-copyable')
+
+            def clone():     # noqa: F811
+                return self._mk(case, fpath)
+
+        # ---- recording run of the concurrent batch
+        rec = Shim(d)
+        done = []
+        side = clone()
+        with rec.active():
+            self._await(self._batch(side, batch, done, rec))
+        raw = list(rec.events)
+        final_dump = self._dump(side)
+        if not raw:
+            tags.add('conc-no-save')
+            return state['fail'], {'tags': sorted(tags), 'key': None, 'observed': 'no save'}
+        docs = {}
+        if fname in s_pre:
+            docs[s_pre[fname]] = 1
+        if bname in s_pre:
+            docs.setdefault(s_pre[bname], 2)
+        dump_of = {1: pre_dump}
+
+        def doc_of(data):
+            if data not in docs:
+                docs[data] = len(docs) + 1 + (bname not in s_pre)
+            return f'doc:{docs[data]}:{len(data)}'
+        steps = self._canon(raw, fpath, doc_of)
+        # split into saves: a save starts at each create
+        starts = [i for i, s in enumerate(steps) if s['kind'] == 'create'] or [0]
+        saves = [(a, b) for a, b in zip(starts, starts[1:] + [len(steps)])]
+        tags.add(f'conc-saves={len(saves)}')
+
+        # ---- model: the batch as the serial history of its saves
+        sync = True
+        fd = f'doc:1:{len(s_pre[fname])}'
+        bd = f'doc:{docs[s_pre[bname]]}:{len(s_pre[bname])}' if bname in s_pre else '-'
+        driver.ask(f'begin 1 {int(ub)}')
+        r1 = driver.ask(f'setfs F={fd} B={bd} T=-')
+        r2 = driver.ask('restart')
+        if not r1.startswith('ok') or not r2.startswith(f'ok {fd}'):
+            fail('correspondence', f'model refuses the start directory: {r1} / {r2}')
+            sync = False
+
+        rnd = random.Random(f'{case["n"]}/{len(raw)}')
+        npoints = 0
+        for si, (a, b) in enumerate(saves):
+            mine = steps[a:b]
+            wr = [s for s in mine if s['kind'] == 'write']
+            text = wr[0]['data'] if wr else b''
+            did = docs.get(text, 0)
+            real_steps = ' '.join(s['text'] for s in mine)
+            tags.add('steps:' + ' '.join(s['text'].split(':doc:')[0] for s in mine))
+            if sync:
+                rep = driver.ask(f'steps {did} {len(text)}')
+                if rep != 'ok ' + real_steps:
+                    fail('correspondence', f'save {si} of the batch: effectful steps real [{real_steps}] model [{rep[3:]}]',
+                         real=real_steps, model=rep)
+                    sync = False
+            points = []
+            for kc in range(a, b):
+                points.append((kc, 0))
+                if steps[kc]['kind'] == 'write':
+                    ln = len(steps[kc]['data'])
+                    js = {1, 2, ln // 2, ln - 2, ln - 1, BUFSIZE, *(rnd.randrange(1, max(2, ln)) for _ in range(3))}
+                    points += [(kc, j) for j in sorted(js) if 0 < j < ln]
+            if si == len(saves) - 1:
+                points.append((len(steps), 0))
+            for kc, j in points:
+                where = (f'concurrent batch {[op[0] for op in batch]}, crash in save {si} (step {kc - a} of '
+                         f'[{real_steps}], {j} bytes)')
+                self._restore(d, s_pre)
+                plan = self._raw_plan(steps, len(raw), kc, j)
+                sh = Shim(d, plan=plan)
+                acked = []
+                try:
+                    with sh.active():
+                        self._await(self._batch(clone(), batch, acked, sh))
+                    crashed = False
+                except Crash:
+                    crashed = True
+                if crashed != (plan[0] < len(raw)):
+                    raise Abort(Failure('correspondence', f'{where}: the batch is not deterministic'))
+                acked = set(acked)
+                left = self._snapshot(d)
+                npoints += 1
+                try:
+                    got = self._dump(self._mk(case, fpath))
+                except Exception as e:
+                    fail('property', f'{where}: start-up failure ({type(e).__name__}: {str(e)[:80]})',
+                         cls='startup:' + type(e).__name__)
+                    continue
+                ok = [p for p in whole.get(got, []) if acked <= set(p)]
+                if not ok:
+                    if got in whole:
+                        fail('property', f'{where}: acknowledged operations {sorted(acked)} are missing from the restarted '
+                             f'store (it is the state after operations {whole[got][0]})', cls='ack-lost')
+                    else:
+                        fail('property', f'{where}: the restarted store is not a whole-operation state of the batch: it '
+                             f'matches none of the {len(whole)} states reachable by applying complete operations in any '
+                             f'order (a half-applied operation was saved by a concurrent one); acknowledged at the '
+                             f'crash: {sorted(acked)}', cls='partial-op',
+                             real={'loaded_len': len(got), 'pre_len': len(pre_dump)})
+                if sync:
+                    rep = driver.ask(f'crash {did} {len(text)} {kc - a} {j}')
+                    ws = rep.split()
+                    files = {w[0]: w[2:] for w in ws[2:] if len(w) > 2 and w[1] == '='}
+                    rf = self._classify_file(left.get(fname), docs, text)
+                    rb = self._classify_file(left.get(bname), docs, text)
+                    if ws[0] != 'ok' or (rf, rb) != (files.get('F'), files.get('B')):
+                        fail('correspondence', f'{where}: files left behind real F={rf} B={rb}, model {rep}',
+                             real={'F': rf, 'B': rb}, model=rep)
+                    else:
+                        mid = int(ws[1].split(':')[1])
+                        if mid not in dump_of:
+                            dump_of[mid] = self._dump_text(case, next(t for t, i in docs.items() if i == mid))
+                        if dump_of[mid] != got:
+                            fail('correspondence', f'{where}: real driver loads something else than model document {mid}',
+                                 model=rep)
+                if len(state['classes'] - {None}) >= 3:
+                    break
+            if sync:
+                rep = driver.ask(f'save {did} {len(text)}')
+                if rep != 'ok ' + real_steps:
+                    fail('correspondence', f'save {si}: model save replies {rep}', model=rep)
+                    sync = False
+        if final_dump not in whole or not any(len(p) == len(batch) for p in whole[final_dump]):
+            fail('property', 'the batch run to completion does not end in the state of a serial order of all its '
+                 'operations', cls='final')
+        tags.add(f'ub={ub}')
+        b = 1
+        while b < npoints:
+            b *= 4
+        tags.add(f'crash-points<={b}')
+        key = json.dumps(['conc', ub, case['pretty'], case['n'], [op[0] for op in batch], len(saves)])
+        return state['fail'], {'tags': sorted(tags), 'key': key,
+                               'observed': {'saves': len(saves), 'crash_points': npoints, 'whole_states': len(whole)}}
 
     # ------------------------------------------------------------------ hand-made directory layouts
     def _run_layout(self, case, driver, d):
